@@ -47,7 +47,7 @@ def main():
         "encoding/json tokenisation of keys/ints (MarshalJSON bytes are decoded with an order-preserving token reader before comparison)",
         "the Go reference map in harness/omap.go (oracle) and the line-protocol driver lean/Cog/Drv/OMapDrv.lean",
     ]
-    hb, err = build_go("verifharness", "harness")
+    hb, err = build_go("verifharness", "harness", files=HARNESS_BASE + ["omap.go"], tag="c19")
     c.oblige("harness builds against /repo working tree", hb is not None, err)
     c.lean_obligations(THEOREMS)
     if hb is None:
